@@ -211,17 +211,39 @@ def isPoll (r : Req) : Bool :=
   | .poll => true
   | _ => false
 
-/-- `processSubscribeRequest`: new context, what was sent, the error returned. -/
+/-- one conjunct of a dispatch condition. -/
+def atomHolds (st : SState) (msg : Req) (atom : String) : Bool :=
+  match atom with
+  | "sub" => isSub msg
+  | "poll" => isPoll msg
+  | "have" => st.req.isSome
+  | "nothave" => st.req.isNone
+  | _ => true
+
+/-- which refusal a refusing branch gives, by what it tested. -/
+def refusalKind (atoms : List String) : Err :=
+  if atoms.contains "sub" then .duplicate
+  else if atoms.contains "poll" then .notYet
+  else .unknownType
+
+/-- the subscription branch: remember the request, split it, forward every per-target request. -/
+def doSubscribe (dev : Dev) (msg : Req) : SState × List Out × Option Err :=
+  match split msg with
+  | .ok (.ok m) => ({ req := some msg, treqs := m }, m.flatMap (forward dev), none)
+  | .ok (.error e) => ({ req := some msg, treqs := [] }, [], some e)
+  | .error _ => ({ req := some msg, treqs := [] }, [], some .noTarget)   -- not reached from the dispatch: the message is a subscription
+
+/-- `processSubscribeRequest`: new context, what was sent, the error returned.  The if / else-if
+    chain is the one extracted from the source (`Generated.subProcessChain`): the first branch
+    whose conjuncts all hold is taken.  A branch the translator could not classify is assumed to
+    send something unaccounted for (so that nothing can be proved about it). -/
 def process (dev : Dev) (st : SState) (msg : Req) : SState × List Out × Option Err :=
-  if isSub msg && st.req.isSome then (st, [], some .duplicate)
-  else if isPoll msg && st.req.isNone then (st, [], some .notYet)
-  else if isSub msg then
-    match split msg with
-    | .ok (.ok m) => ({ req := some msg, treqs := m }, m.flatMap (forward dev), none)
-    | .ok (.error e) => ({ req := some msg, treqs := [] }, [], some e)
-    | .error _ => ({ req := some msg, treqs := [] }, [], some .noTarget)   -- unreachable: `isSub msg`
-  else if isPoll msg then (st, st.treqs.flatMap (pollOne dev), none)
-  else (st, [], some .unknownType)
+  match Generated.subProcessChain.find? (fun cl => cl.1.all (atomHolds st msg)) with
+  | some (atoms, "refuse") => (st, [], some (refusalKind atoms))
+  | some (_, "split") => doSubscribe dev msg
+  | some (_, "poll") => (st, st.treqs.flatMap (pollOne dev), none)
+  | some (_, _) => (st, [.polled []], none)
+  | none => (st, [], none)
 
 /-- what the subscriber's stream delivers to `Recv`. -/
 inductive Event
